@@ -51,7 +51,7 @@ def _one(module, cfg, workdir, k, chunk):
 
 
 def validate(traces, workdir, monitors=ALL_MONITORS, procs=16, module="ElectionTrace", spec="TSpec", per_proc=1500,
-             exact_expected=None):
+             exact_expected=None, bound=None):
     """Validate a batch of traces with TLC.  The batch is split over `procs` single-worker TLC processes
     (trace validation is one short behaviour per trace: separate JVMs scale linearly, TLC's shared queue does not).
     returns (verdicts: {id: {"final": rec, "rejects": [...], "monitors": [...]}}, stats, traces by id)"""
@@ -60,7 +60,7 @@ def validate(traces, workdir, monitors=ALL_MONITORS, procs=16, module="ElectionT
     ok, skipped, inexact = [], 0, []
     for i, t in enumerate(traces):
         t["id"] = i + 1
-        if in_arith_range({a: b for a, b in t.items() if not a.startswith("_")}):
+        if in_arith_range({a: b for a, b in t.items() if not a.startswith("_")}, *([bound] if bound else [])):
             ok.append(t)
         elif exact_expected and exact_expected(t) and not t.get("_wide"):
             inexact.append(t)      # small exact inputs, no fractional transfer: such a value cannot be a correct exact result
